@@ -78,6 +78,15 @@ def job(j):
                     mm.append("valid default refused / errors: %r" % (resp,))
                 elif len(w.calls) != 1 or not render.strict_eq(w.calls[0][2], exp):
                     mm.append("resolver saw %r, expected %r" % (w.calls, exp))
+            # the same default with its enum values spelt as string literals ("X"): an invalid default, whatever the value
+            if k == 0 and inputworld.has_enum_literal(rec["lit"]):
+                st["n"] += 1
+                q2 = "query ($a: %s = %s) { e%d(a: $a) }" % (ty, lit_text(rec["lit"], k, enum_as_string=True), rec["ti"])
+                resp2 = w.run(q2, variables)
+                mm2 = refused_ok(resp2, w)
+                if mm2 and len(st["viol"]) < 400:
+                    genrun.add_viol(st["viol"], ({"kind": "default-cell", "type": ty, "refused_expected": True, "first": "string literal for an enum in a default: " + mm2[0][:80]},
+                                       {"cell": rec, "query": q2, "variables": repr(variables), "mismatches": mm2, "response": repr(resp2)[:1500]}))
             st["distinct"].add((rec["ti"], "default", repr(rec["v"])))
             if mm and len(st["viol"]) < 400:
                 genrun.add_viol(st["viol"], ({"kind": "default-cell", "type": ty, "refused_expected": rec["refused"], "first": mm[0][:100]},
